@@ -137,7 +137,10 @@ def check_cmd_step(ch, fam, step, res, model, desc):
             ok = False; why.append("completion code")
     else:
         want = OUTCOME_ERR[m["outcome"]]
-        if go_err != want and not (want == "other" and go_err != "nil"):
+        # "silence": no reply until the caller's context ends; the model's script reads that attempt as a transport failure
+        # (outcome 2) where the library reports the context's own error
+        silent = want == "lost" and "silence" in res.get("actions", []) and go_err == "deadline"
+        if go_err != want and not (want == "other" and go_err != "nil") and not silent:
             ok = False; why.append("model outcome %d, impl error %s" % (m["outcome"], go_err))
     if not ok:
         ch.corr_break(desc, {"step": step, "impl": {k: res[k] for k in ("err", "code", "sent", "delivered", "actions")},
